@@ -97,7 +97,15 @@ class C03(Spec):
                     w.serve(decoy, netgen.ok_json({"type": "Note", "content": "decoy"}))
                     name = rng.choice(["Content-Location", "X-Location", "content-location", "Relocation"])
                     hdrs = rng.choice([[name + ": " + decoy], [name + ": " + decoy, "Location: " + loc], ["Server: location: " + decoy, "Location: " + loc]])
-                w.serve(nodes[i], netgen.http_response(status="HTTP/1.1 %d x" % rng.choice((301, 302, 303, 307, 308, 300, 399)), headers=hdrs, body=b""))
+                body = b""
+                if rng.random() < 0.12:
+                    # no Location HEADER, but a line in the BODY that looks like one: the headers end at the blank line
+                    decoy2 = w.url(0, "/bodydecoy")
+                    w.u(decoy2)
+                    w.serve(decoy2, netgen.ok_json({"type": "Note", "content": "reached through the body"}))
+                    hdrs = [h for h in hdrs if not h.lower().startswith("location")]
+                    body = ("Location: " + decoy2 + "\r\n").encode()
+                w.serve(nodes[i], netgen.http_response(status="HTTP/1.1 %d x" % rng.choice((301, 302, 303, 307, 308, 300, 399)), headers=hdrs, body=body))
             if cyclic:
                 w.serve(nodes[n], netgen.redirect(nodes[rng.randrange(n + 1)]))
             else:
